@@ -121,7 +121,7 @@ def from_line(mode, line):
     return None
 
 
-def run_fuzz(repo, mode, seeds, literals, runs, seed, workdir):
+def run_fuzz(repo, mode, seeds, literals, runs, seed, workdir, max_time=30):
     """returns (list of new inputs, note).  Needs the tooling interpreter `python3-vt` (atheris); without it the
     stage is skipped and the note says so."""
     import shutil
@@ -141,7 +141,7 @@ def run_fuzz(repo, mode, seeds, literals, runs, seed, workdir):
         for k, l in enumerate(literals[:200]):
             fh.write('lit%d="%s"\n' % (k, "".join("\\x%02x" % b for b in l)))
     env = dict(os.environ, PYTHONPATH=os.path.join(repo, "src"))
-    cmd = [py, os.path.join(HERE, "fuzz_corpus.py"), mode, corpus, str(runs), str(seed), dic]
+    cmd = [py, os.path.join(HERE, "fuzz_corpus.py"), mode, corpus, str(runs), str(seed), dic, str(max_time)]
     try:
         pr = subprocess.run(cmd, capture_output=True, text=True, env=env, timeout=900, cwd=workdir)
         note = "exit %d" % pr.returncode
